@@ -132,6 +132,8 @@ func liveInstances(before int) (live, liveOld, lastLive int) {
 
 type rcOps struct {
 	setRoutine func(tag int) <-chan struct{} // install a fresh routine closure with this tag
+	setNil     func() <-chan struct{}        // SetRoutine(nil) / SetStateRoutine(nil)
+	waitExited func(ctx context.Context, returnIfNotRunning bool, errCh <-chan error) error
 	restart    func() bool
 	setContext func(ctx context.Context, restart bool) bool
 	clear      func() bool
@@ -152,9 +154,12 @@ const (
 	lState2
 	lState0
 	lStateSame
+	lSetNil
+	lCtxDead  // SetContext(a fresh context that is already cancelled, restart=true)
+	lWaitDead // WaitExited with an already-cancelled waiter context: returns context.Canceled, changes nothing
 )
 
-var letterNames = []string{"SetRoutine(new)", "RestartRoutine", "SetContext(fresh,true)", "ClearContext", "SetContext(same,false)", "SetContext(fresh,false)", "SetState(1)", "SetState(2)", "SetState(0)", "SetState(same)"}
+var letterNames = []string{"SetRoutine(new)", "RestartRoutine", "SetContext(fresh,true)", "ClearContext", "SetContext(same,false)", "SetContext(fresh,false)", "SetState(1)", "SetState(2)", "SetState(0)", "SetState(same)", "SetRoutine(nil)", "SetContext(fresh but already cancelled,true)", "WaitExited(cancelled ctx)"}
 
 // doLetter issues one controller call and checks the C05 return-time oracle.
 func doLetter(o *rcOps, l int, curCtx *context.Context, who string) {
@@ -167,6 +172,10 @@ func doLetter(o *rcOps, l int, curCtx *context.Context, who string) {
 	case lSetRoutine:
 		vsched.CtrSet(rHasRt, 1)
 		watchReturn(o.setRoutine(call), call, before)
+	case lSetNil:
+		vsched.CtrSet(rHasRt, 0)
+		watchReturn(o.setNil(), call, before)
+		mustBeZero = true
 	case lRestart:
 		o.restart()
 	case lCtxFreshRestart, lCtxFresh:
@@ -174,6 +183,20 @@ func doLetter(o *rcOps, l int, curCtx *context.Context, who string) {
 		*curCtx = c
 		vsched.CtrSet(rCtxTag, int64(call))
 		o.setContext(c, l == lCtxFreshRestart)
+	case lCtxDead:
+		c, cancel := context.WithCancel(context.WithValue(bg, ctxKey{}, call))
+		cancel()
+		*curCtx = c
+		vsched.CtrSet(rCtxTag, int64(call))
+		o.setContext(c, true)
+		mustBeZero = true
+	case lWaitDead:
+		supersedes = false
+		c, cancel := context.WithCancel(bg)
+		cancel()
+		if err := o.waitExited(c, false, nil); err != nil && err != context.Canceled && err != errRoutine {
+			fail("C14.waitexited", "WaitExited with a cancelled context returned %v", err)
+		}
 	case lCtxSame:
 		supersedes = false
 		if *curCtx != nil {
@@ -259,7 +282,13 @@ func spuriousCancelOracle() {
 	}
 }
 
+// exitObs: every container under test has an exit callback (it runs after the lock is dropped).
+func exitObs() routine.Option {
+	return routine.WithExitCb(func(err error) { vsched.Observe(oCb, 3, errCode(err), 0) })
+}
+
 func newRC(outcomes []int, opts ...routine.Option) *rcOps {
+	opts = append(opts, exitObs())
 	k := routine.NewRoutineContainer(opts...)
 	vsched.CtrSet(rTagsExact, 1)
 	return &rcOps{
@@ -269,6 +298,8 @@ func newRC(outcomes []int, opts ...routine.Option) *rcOps {
 			})
 			return ch
 		},
+		setNil:     func() <-chan struct{} { ch, _ := k.SetRoutine(nil); return ch },
+		waitExited: k.WaitExited,
 		restart:    k.RestartRoutine,
 		setContext: k.SetContext,
 		clear:      k.ClearContext,
@@ -276,6 +307,7 @@ func newRC(outcomes []int, opts ...routine.Option) *rcOps {
 }
 
 func newSRC(outcomes []int, opts ...routine.Option) *rcOps {
+	opts = append(opts, exitObs())
 	k := routine.NewStateRoutineContainer[int](func(a, b int) bool { return a == b }, opts...)
 	return &rcOps{
 		setRoutine: func(tag int) <-chan struct{} {
@@ -284,6 +316,8 @@ func newSRC(outcomes []int, opts ...routine.Option) *rcOps {
 			})
 			return ch
 		},
+		setNil:     func() <-chan struct{} { ch, _, _ := k.SetStateRoutine(nil); return ch },
+		waitExited: k.WaitExited,
 		restart:    k.RestartRoutine,
 		setContext: k.SetContext,
 		clear:      k.ClearContext,
@@ -301,6 +335,13 @@ func newSRC(outcomes []int, opts ...routine.Option) *rcOps {
 
 // routineWord: a single controller issues every word of the given length over the alphabet.
 func routineWord(state bool, alphabet []int, length int, outcomes []int) func() {
+	return routineWordOpt(state, alphabet, length, outcomes, false)
+}
+
+// routineWordOpt: with settle, the controller may (choice) wait for quiescence before each letter,
+// so that chains "old instance has returned, its replacement is inside the function" are reached
+// without spending schedule deviations on them.
+func routineWordOpt(state bool, alphabet []int, length int, outcomes []int, settle bool) func() {
 	return func() {
 		var o *rcOps
 		if state {
@@ -318,6 +359,9 @@ func routineWord(state bool, alphabet []int, length int, outcomes []int) func() 
 			vsched.Settle() // the first instance is inside the managed function when the word starts
 		}
 		for i := 0; i < length; i++ {
+			if settle && i > 0 && vsched.Choose(2) == 1 {
+				vsched.Settle()
+			}
 			doLetter(o, alphabet[vsched.Choose(len(alphabet))], &cur, "")
 		}
 		finalRoutineOracle(o, state)
@@ -406,10 +450,28 @@ func init() {
 		Body: routineWord(true, stateAlpha, 3, []int{iUntilCancelled}),
 	})
 	eng.Register(&eng.Scenario{
+		Name: "sroutine-word3-settle", Props: []string{"C04", "C05", "C14"}, ObsNames: stdObs,
+		Doc:   "StateRoutineContainer: as sroutine-word3, and before the 2nd and 3rd letter the controller optionally (choice) waits for quiescence (the superseded instance has returned and its replacement is inside the function)",
+		Quick: eng.Bounds{PB: 1, Delay: true}, Thorough: eng.Bounds{PB: 2, Delay: true},
+		Body: routineWordOpt(true, stateAlpha, 3, []int{iUntilCancelled}, true),
+	})
+	eng.Register(&eng.Scenario{
+		Name: "routine-word3-settle", Props: []string{"C04", "C05", "C14"}, ObsNames: stdObs,
+		Doc:   "RoutineContainer: as routine-word3 over {SetRoutine(new), SetRoutine(nil), RestartRoutine, SetContext(fresh,true), ClearContext, SetContext(fresh,false), SetContext(an already-cancelled context,true)}, optionally waiting for quiescence before the 2nd and 3rd letter",
+		Quick: eng.Bounds{PB: 1, Delay: true}, Thorough: eng.Bounds{PB: 2, Delay: true},
+		Body: routineWordOpt(false, []int{lSetRoutine, lSetNil, lRestart, lCtxFreshRestart, lClear, lCtxFresh, lCtxDead}, 3, []int{iUntilCancelled}, true),
+	})
+	eng.Register(&eng.Scenario{
+		Name: "routine-word2-settle", Props: []string{"C04", "C05", "C14"}, ObsNames: stdObs,
+		Doc:   "RoutineContainer: as routine-word3-settle with words of length 2 over the alphabet extended by WaitExited(already-cancelled waiter context), and a deeper schedule bound",
+		Quick: eng.Bounds{PB: 2, Delay: true}, Thorough: eng.Bounds{PB: 3, Delay: true},
+		Body: routineWordOpt(false, []int{lSetRoutine, lSetNil, lRestart, lCtxFreshRestart, lClear, lCtxFresh, lCtxDead, lWaitDead}, 2, []int{iUntilCancelled}, true),
+	})
+	eng.Register(&eng.Scenario{
 		Name: "sroutine-word2", Props: []string{"C04", "C05", "C14"}, ObsNames: stdObs,
-		Doc:   "StateRoutineContainer: as sroutine-word3 with words of length 2 and a deeper schedule bound",
+		Doc:   "StateRoutineContainer: as sroutine-word3 with words of length 2 over the alphabet extended by WaitExited(already-cancelled waiter context) and SetStateRoutine(nil), and a deeper schedule bound",
 		Quick: eng.Bounds{PB: 2, Delay: true}, Thorough: eng.Bounds{PB: 4, Delay: true},
-		Body: routineWord(true, stateAlpha, 2, []int{iUntilCancelled}),
+		Body: routineWord(true, append(append([]int{}, stateAlpha...), lWaitDead, lSetNil), 2, []int{iUntilCancelled}),
 	})
 	eng.Register(&eng.Scenario{
 		Name: "sroutine-two", Props: []string{"C05", "C04"}, ObsNames: stdObs,
@@ -517,6 +579,100 @@ func init() {
 			if a := vsched.Ctr(rActive); a != 0 {
 				fail("C05.live-after-clear", "%d instance(s) still executing after ClearContext and quiescence", a)
 			}
+		},
+	})
+	extCancel := func(state bool) func() {
+		return func() {
+			var o *rcOps
+			if state {
+				o = newSRC([]int{iUntilCancelled})
+			} else {
+				o = newRC([]int{iUntilCancelled})
+			}
+			root, cancelRoot := context.WithCancel(context.WithValue(context.Background(), ctxKey{}, 1))
+			defer cancelRoot()
+			var cur context.Context = root
+			vsched.CtrAdd(rCalls, 1)
+			vsched.CtrSet(rCtxTag, 1)
+			o.setContext(root, false)
+			vsched.CtrAdd(rCallsDone, 1)
+			if state {
+				doLetter(o, lState1, &cur, "")
+			}
+			doLetter(o, lSetRoutine, &cur, "")
+			vsched.Settle()          // the first instance is inside the managed function
+			vsched.CtrAdd(rCalls, 1) // (counts as a controller action for the spurious-restart oracle)
+			cancelRoot()
+			vsched.CtrAdd(rCallsDone, 1)
+			alpha := []int{lSetRoutine, lRestart, lCtxFreshRestart, lCtxFresh, lCtxSame, lWaitDead}
+			if state {
+				alpha = append(alpha, lState2)
+			}
+			for i := 0; i < 2; i++ {
+				doLetter(o, alpha[vsched.Choose(len(alpha))], &cur, "")
+			}
+			finalRoutineOracle(o, state)
+			spuriousCancelOracle()
+			o.clear()
+			vsched.Settle()
+			if a := vsched.Ctr(rActive); a != 0 {
+				fail("C05.live-after-clear", "%d instance(s) still executing after ClearContext and quiescence", a)
+			}
+		}
+	}
+	eng.Register(&eng.Scenario{
+		Name: "routine-extcancel", Props: []string{"C04", "C05", "C14"}, ObsNames: stdObs,
+		Doc:   "RoutineContainer whose context is cancelled by its owner from outside (not through SetContext/ClearContext) while the instance is inside the function and slow to return; then every word of length 2 over {SetRoutine(new), RestartRoutine, SetContext(fresh,true|false), SetContext(same,false), WaitExited(cancelled ctx)}",
+		Quick: eng.Bounds{PB: 2, Delay: true}, Thorough: eng.Bounds{PB: 3, Delay: true},
+		Body: extCancel(false),
+	})
+	eng.Register(&eng.Scenario{
+		Name: "sroutine-extcancel", Props: []string{"C04", "C05", "C14"}, ObsNames: stdObs,
+		Doc:   "StateRoutineContainer: as routine-extcancel, alphabet extended by SetState(2)",
+		Quick: eng.Bounds{PB: 2, Delay: true}, Thorough: eng.Bounds{PB: 3, Delay: true},
+		Body: extCancel(true),
+	})
+	eng.Register(&eng.Scenario{
+		Name: "sroutine-swap-equiv", Props: []string{"C14", "C05"}, ObsNames: stdObs,
+		Doc:   "StateRoutineContainer with a compare function coarser than == (x == y mod 10): the instance returns by itself (nil or error, choice); SwapValue / SetState to an equivalent state (1 -> 11) is not a new state: nothing is run again and GetState stays 1; SwapValue / SetState to a different state (2) runs the routine again with 2",
+		Quick: eng.Bounds{PB: 2}, Thorough: eng.Bounds{PB: 3},
+		Body: func() {
+			first := []int{iReturnNil, iReturnErr}[vsched.Choose(2)]
+			viaSwap := vsched.Choose(2) == 1
+			k := routine.NewStateRoutineContainer[int](func(a, b int) bool { return a%10 == b%10 })
+			k.SetStateRoutine(func(ctx context.Context, st int) error {
+				out := iUntilCancelled
+				if vsched.CtrAdd(rRuns, 1) == 1 {
+					out = first
+				}
+				return instance(ctx, 1, out, st)
+			})
+			k.SetContext(context.WithValue(context.Background(), ctxKey{}, 1), false)
+			k.SetState(1)
+			vsched.Settle() // the first instance has returned
+			set := func(v int) {
+				if viaSwap {
+					k.SwapValue(func(int) int { return v })
+				} else {
+					k.SetState(v)
+				}
+			}
+			set(11)
+			vsched.Settle()
+			if r := vsched.Ctr(rRuns); r != 1 {
+				fail("C14.extra-run", "the routine had returned and was given an equivalent state (1 -> 11 under the container's compare function): it ran %d times, want 1", r)
+			}
+			if st := k.GetState(); st != 1 {
+				fail("C05.stale-state", "GetState() = %d after storing an equivalent state, want the stored 1", st)
+			}
+			set(2)
+			vsched.Settle()
+			live, _, last := liveInstances(0)
+			if vsched.Ctr(rRuns) != 2 || live != 1 || vsched.Ctr(rState0+last) != 2 {
+				fail("C14.retry-lost", "a new state (2) was set: runs=%d live=%d, want a second run holding state 2", vsched.Ctr(rRuns), live)
+			}
+			k.ClearContext()
+			vsched.Settle()
 		},
 	})
 	eng.Register(&eng.Scenario{
@@ -685,7 +841,7 @@ func init() {
 
 // newRCRetry: the first entry returns an error, all later ones run until cancelled.
 func newRCRetry() *rcOps {
-	k := routine.NewRoutineContainer(routine.WithBackoff(&constBackoff{}))
+	k := routine.NewRoutineContainer(routine.WithBackoff(&constBackoff{}), exitObs())
 	vsched.CtrSet(rTagsExact, 1)
 	return &rcOps{
 		setRoutine: func(tag int) <-chan struct{} {
